@@ -17,7 +17,8 @@
 //! each starting after a seeded delay of at most MAYV_CLATE ns (acceptors: MAYV_ALATE), so that acceptors block on an
 //! empty backlog and connections wait in the backlog.  unix: every connector then sends its stream and the server side
 //! of the accepted connection (a coroutine per connection) reads it to the end.  tcp: MAYV_REFUSE=1 adds a connector
-//! towards a port nobody listens on (must fail with ConnectionRefused).  Oracles: accept hands out every connection
+//! towards a port nobody listens on (must fail with ConnectionRefused); MAYV_NAG=n wakes the blocked acceptor n times
+//! without a connection (oracle-only: WaitIoWaker is not part of IoModel).  Oracles: accept hands out every connection
 //! exactly once and the one the kernel queued at that position (unix: the stream of the accepted socket is the stream
 //! of that connector, byte by byte; tcp: the peer port of the accepted socket is the local port of that connector);
 //! connect returns Ok exactly for the connectors towards a listener; nobody hangs.
@@ -330,6 +331,20 @@ fn accept_jobs(ctx: &Ctx, tcp: bool, conns: usize, maxsize: u64, maxchunk: u64, 
             let lst = may::net::TcpListener::bind("127.0.0.1:0").expect("bind");
             tap::track_listener(lst.as_raw_fd(), l, false);
             addrs.push(Addr::T(lst.local_addr().expect("addr")));
+            // MAYV_NAG=n: a helper wakes whoever is suspended on the listener n times without a connection
+            // (WaitIoWaker::wakeup): the acceptor goes through the retry loop of `done()` with an accept that finds nothing
+            let nag = envn("MAYV_NAG", 0);
+            if nag > 0 {
+                use may::io::WaitIo;
+                let wk = lst.waker();
+                let gap = envn("MAYV_NAGGAP", 200_000);
+                jobs.push((format!("l{i}.nag"), true, Box::new(move || {
+                    for _ in 0..nag {
+                        may::coroutine::sleep(std::time::Duration::from_nanos(gap));
+                        wk.wakeup();
+                    }
+                })));
+            }
             jobs.push((format!("l{i}.acc"), true, Box::new(move || {
                 let c = mayv::ctx();
                 if late > 0 {
@@ -456,10 +471,27 @@ fn accept_jobs(ctx: &Ctx, tcp: bool, conns: usize, maxsize: u64, maxchunk: u64, 
         })));
     }
     if refuse {
-        // a port nobody listens on: bind, note the port, close
-        let dead = {
-            let l = std::net::TcpListener::bind("127.0.0.1:0").expect("bind");
-            l.local_addr().expect("addr")
+        // a port nobody listens on and nobody else can get (check runs scenario processes in parallel): a socket that
+        // is bound but does not listen, kept open until the process ends
+        let dead = unsafe {
+            #[repr(C)]
+            struct SockaddrIn {
+                family: u16,
+                port: u16,
+                addr: u32,
+                zero: [u8; 8],
+            }
+            extern "C" {
+                fn socket(d: i32, t: i32, p: i32) -> i32;
+                fn bind(fd: i32, addr: *const SockaddrIn, len: u32) -> i32;
+                fn getsockname(fd: i32, addr: *mut SockaddrIn, len: *mut u32) -> i32;
+            }
+            let fd = socket(2, 1, 0);
+            let mut a = SockaddrIn { family: 2, port: 0, addr: u32::from_ne_bytes([127, 0, 0, 1]), zero: [0; 8] };
+            assert!(fd >= 0 && bind(fd, &a, 16) == 0, "bind of the dead port");
+            let mut len = 16u32;
+            assert!(getsockname(fd, &mut a, &mut len) == 0);
+            std::net::SocketAddr::from(([127, 0, 0, 1], u16::from_be(a.port)))
         };
         let f = 2 * conns as u64;
         let late = if clate > 0 { ctx.rand() % (clate + 1) } else { 0 };
